@@ -315,7 +315,53 @@ def from_sexpr(prog):
             err = match(AggV("Not", C(W, VF(1, "Not", 0), P(2))), n, ("new",))
     out.append(inst("DP", key, VIOLATION if err else OK, fn, None,
                     err or "Not(Var s) ↦ Literal(map[s], false); Not(e) ↦ Not(helper(e))"))
+    out += _numbering_source(prog, fn)
     return out
+
+
+def _numbering_source(prog, worker):
+    """The table the worker looks names up in is the documented numbering: the entry point hands it
+    `sexpr.variable_mapping()` (or a numbering it derives from `unique_variables()`, which MP compares with
+    variable_mapping's, or its own caller's table).  A table that starts empty and is filled as names are met numbers the
+    variables by first mention: the formula is then compiled with other labels than the ones weights and configured
+    orders are attached through."""
+    es = [f for f in prog.lib_fns if f.name == "from_sexpr" and "LogicalExpr" in f.npath and "{closure" not in f.npath and
+          not f.npath.split("::from_sexpr")[1]]
+    if len(es) != 1:
+        return []
+    e = prog.default_args_worker(es[0])
+    key = es[0].npath + ":labels-from-variable-mapping"
+    sites = [cs for cs in e.terms.calls if (cs.callee.local or getattr(cs.callee, "res_local", False)) and worker in prog.resolve(cs.callee)]
+    if e is worker:
+        return [inst("DP", key, UNDECIDED, e, None, "?the entry point is its own worker")]
+    if not sites:
+        return [inst("DP", key, UNDECIDED, e, None, "?the entry point does not call the worker %s directly" % worker.name)]
+    errs, und, ok = [], [], []
+    for cs in sites:
+        for a in cs.args:
+            a0 = mir.strip_refs(a)
+            if a0 == ("param", 1):
+                continue
+            if isinstance(a0, tuple) and a0 and a0[0] == "mutref" and isinstance(a0[1], int):
+                v_ = e.terms.state_in.get(cs.bb, {}).get(a0[1])
+                if v_ is not None:
+                    a0 = mir.strip_refs(strip(v_))
+            subs = [a0] + list(mir.subterms(a0)) if isinstance(a0, tuple) else []
+            if any(mir.is_call(x) and x[1].name in ("variable_mapping", "unique_variables") for x in subs):
+                ok.append("the worker is handed %s" % show(a0)[:60])
+            elif any(isinstance(x, tuple) and x and x[0] == "param" and x[1] >= 2 for x in subs):
+                ok.append("the worker is handed the entry point's own table")
+            elif mir.is_call(a0) and a0[1].name in ("new", "default", "with_capacity", "with_hasher", "with_capacity_and_hasher") and \
+                    any(k in a0[1].key() for k in ("HashMap", "BTreeMap", "Vec", "IndexMap")):
+                errs.append("from_sexpr hands its worker a table that starts empty (%s): the names are numbered as the worker meets "
+                            "them, not in the documented (lexicographic) numbering that variable_mapping(), the weights file and "
+                            "a configured order use" % show(a0)[:40])
+            else:
+                und.append("?the table handed to the worker is %s" % show(a0)[:60])
+    if not (errs or und or ok):
+        und.append("?the worker takes no table")
+    return [inst("DP", key, VIOLATION if errs else (UNDECIDED if und else OK), e, sites[0].line,
+                 (errs or und or ok)[0])]
 
 
 def _is_double_neg_shortcut(t, w="helper"):
